@@ -544,6 +544,123 @@ func (lv *c15Live) run(co *caseOut, in c15LiveIn) {
 		fmt.Sprintf("CLive %s %d %d %d %s %s %d", c15CoqSigners(in.Ops), in.H, x.cal, x.cur, coqBool(x.be), coqBool(x.rs), res))
 }
 
+// ---------- a contract changes its own groups (update / destroy) and then the witness is checked ----------
+
+type c15SelfIn struct {
+	Stage  int    `json:"stage"`  // 0 before Domovoi, 1 after
+	Helper string `json:"helper"` // HG: in group 1 (update leaves it), HP: in no group (update joins group 1)
+	Action string `json:"action"` // none | update | destroy
+	Shape  string `json:"shape"`  // self: CheckWitness by the changed contract; callee: by a contract it calls afterwards; caller: by its caller after it returned
+	Scope  int    `json:"scope"`  // 0 CustomGroups [1]; 1..4 Rules Allow: Group 1, CalledByGroup 1, Not Group 1, Not CalledByGroup 1
+}
+
+func c15SelfSigner(scope int) c15Signer {
+	g1, cbg1 := &c15Cond{T: "g", G: 1}, &c15Cond{T: "cbg", G: 1}
+	switch scope {
+	case 1:
+		return c15Signer{Acct: 5, Scopes: 64, Rules: []c15Rule{{true, g1}}}
+	case 2:
+		return c15Signer{Acct: 5, Scopes: 64, Rules: []c15Rule{{true, cbg1}}}
+	case 3:
+		return c15Signer{Acct: 5, Scopes: 64, Rules: []c15Rule{{true, &c15Cond{T: "not", C: g1}}}}
+	case 4:
+		return c15Signer{Acct: 5, Scopes: 64, Rules: []c15Rule{{true, &c15Cond{T: "not", C: cbg1}}}}
+	}
+	return c15Signer{Acct: 5, Scopes: 32, Groups: []int{1}}
+}
+
+func c15RunSelf(co *caseOut, in c15SelfIn) {
+	s, err := c16SelfGet(in.Stage)
+	if err != nil {
+		co.violation("selfcw", "harness: "+err.Error(), in, nil)
+		return
+	}
+	h, inGroup := s.HG, true
+	if in.Helper == "HP" {
+		h, inGroup = s.HP, false
+	}
+	wild := []manifest.Permission{*manifest.NewPermission(manifest.PermissionWildcard)}
+	newMan := func() []byte {
+		if inGroup {
+			return s.newManifest(in.Helper, wild, nil)
+		}
+		return s.newManifest(in.Helper, wild, []*keys.PrivateKey{c16Key(0)})
+	}
+	acct := util.Uint160{5}
+	n := &c15Names{hash: map[int]util.Uint160{0: {}, 1: h.Hash, 2: s.K.Hash, 5: acct}, group: map[int]*keys.PublicKey{1: c16Key(0).PublicKey(), 2: c16Key(1).PublicKey()}}
+	sg := c15SelfSigner(in.Scope)
+	var script []byte
+	var x c15Ctx
+	hv := acct
+	switch in.Shape {
+	case "self":
+		x = c15Ctx{9, 1, true, true}
+		script = c16Code(func(w *io.BinWriter) {
+			switch in.Action {
+			case "update":
+				c16EmitCall(w, h.Hash, "u_cw", 15, newMan(), hv)
+			case "destroy":
+				c16EmitCall(w, h.Hash, "d_cw", 15, hv)
+			default:
+				c16EmitCall(w, h.Hash, "cw", 15, hv)
+			}
+		})
+	case "callee":
+		x = c15Ctx{1, 2, false, true}
+		script = c16Code(func(w *io.BinWriter) {
+			switch in.Action {
+			case "update":
+				c16EmitCall(w, h.Hash, "u_fwd", 15, newMan(), s.K.Hash, "cw", 15, []any{hv})
+			case "destroy":
+				c16EmitCall(w, h.Hash, "d_fwd", 15, s.K.Hash, "cw", 15, []any{hv})
+			default:
+				c16EmitCall(w, h.Hash, "fwd", 15, s.K.Hash, "cw", 15, []any{hv})
+			}
+		})
+	default: // caller: K calls the helper (which changes itself and returns), then K checks the witness
+		x = c15Ctx{9, 2, true, true}
+		script = c16Code(func(w *io.BinWriter) {
+			switch in.Action {
+			case "update":
+				c16EmitCall(w, s.K.Hash, "call_cw", 15, h.Hash, "u_fwd", 15, []any{newMan(), s.C.Hash, "a", 15, []any{}}, hv)
+			case "destroy":
+				c16EmitCall(w, s.K.Hash, "call_cw", 15, h.Hash, "d_fwd", 15, []any{s.C.Hash, "a", 15, []any{}}, hv)
+			default:
+				c16EmitCall(w, s.K.Hash, "call_cw", 15, h.Hash, "fwd", 15, []any{s.C.Hash, "a", 15, []any{}}, hv)
+			}
+		})
+	}
+	obs, ic := s.c.invoke(script, n.signers([]c15Signer{sg}), util.Uint160{}, 1, trigger.Application, callflag.All, false)
+	res := -1
+	if obs.State == "HALT" && ic.VM.Estack().Len() > 0 {
+		if b, err := ic.VM.Estack().Peek(0).Item().TryBool(); err == nil {
+			res = c15Code3(b, nil)
+		}
+	}
+	if res < 0 {
+		co.violation("selfcw", "harness: unexpected outcome: "+obs.State+" "+obs.Fault, in, obs)
+		return
+	}
+	// the contract table AT THE MOMENT OF THE CHECK
+	now := inGroup
+	table := ""
+	switch in.Action {
+	case "update":
+		now = !inGroup
+	case "destroy":
+		table = "[(2, [])]"
+	}
+	if table == "" {
+		if now {
+			table = "[(1, [1]); (2, [])]"
+		} else {
+			table = "[(1, []); (2, [])]"
+		}
+	}
+	co.add("selfcw", fmt.Sprintf("stage%d/%s/%s/%s/res%d", in.Stage, in.Helper, in.Action, in.Shape, res), true, in, res,
+		fmt.Sprintf("CLiveT %s %s 5 %d %d %s %s %d", table, c15CoqSigners([]c15Signer{sg}), x.cal, x.cur, coqBool(x.be), coqBool(x.rs), res))
+}
+
 // ---------- enumeration ----------
 
 func c15Leaves() []*c15Cond {
@@ -660,6 +777,9 @@ func runC15(cmd string, args []string) error {
 		if live != nil {
 			live.c.close()
 		}
+		if c16SelfInst != nil {
+			c16SelfInst.c.close()
+		}
 	}()
 
 	if cf.replay != "" {
@@ -684,6 +804,10 @@ func runC15(cmd string, args []string) error {
 				var in c15ScopeIn
 				json.Unmarshal(x.Input, &in)
 				c15RunScope(co, real, in)
+			case "selfcw":
+				var in c15SelfIn
+				json.Unmarshal(x.Input, &in)
+				c15RunSelf(co, in)
 			case "live":
 				var in c15LiveIn
 				json.Unmarshal(x.Input, &in)
@@ -826,8 +950,20 @@ func runC15(cmd string, args []string) error {
 				c15RunScope(co, real, c15ScopeIn{Ops: l, H: h})
 			}
 		}
+		// a contract updates / destroys itself and then the witness is checked, before and after Domovoi
+		for stage := 0; stage <= 1; stage++ {
+			for _, hp := range []string{"HG", "HP"} {
+				for _, act := range []string{"none", "update", "destroy"} {
+					for _, sh := range []string{"self", "callee", "caller"} {
+						for sc := 0; sc < 5; sc++ {
+							c15RunSelf(co, c15SelfIn{Stage: stage, Helper: hp, Action: act, Shape: sh, Scope: sc})
+						}
+					}
+				}
+			}
+		}
 		co.extra["exhaustive"] = true
-		co.extra["x_universe"] = "98 call contexts (entry; called-by-entry and deeper: current in 4 contracts x calling in {zero,4 contracts,entry} x ReadStates yes/no; the contracts' groups are {1},{1,2},{},{2}); " +
+		co.extra["x_universe"] = "selfcw: {before, after Domovoi} x {contract in / not in the group} x {no change, update toggling the group, destroy} x {check by the contract itself, by a callee, by its caller afterwards} x {CustomGroups, Rules Group / CalledByGroup / Not Group / Not CalledByGroup}; " + "98 call contexts (entry; called-by-entry and deeper: current in 4 contracts x calling in {zero,4 contracts,entry} x ReadStates yes/no; the contracts' groups are {1},{1,2},{},{2}); " +
 			"cond (stub context): all trees of height <= 2 over 19 leaves with Not and unary/binary And/Or, and all unary wrappers of those (height 3); " +
 			"real path (CheckHashedWitness, Rules signer): all those trees of height <= 2 as Allow rule and as Deny rule followed by Allow-all; all And/Or of a current-side and a calling-side group condition (plain or negated) with a third operand in all 6 orders; all rule lists of length 2 over 16 group-relevant rules and all of length 3 that ask about both the current and the calling contract's groups; thorough: all lists of length 3, all unary wrappers (height 3) as Allow rule, and the height <= 2 trees through the stub context too; " +
 			"scope: all 16 combinations of the scope bits + Global x allowed-contract subsets x allowed-group subsets x 12 rule lists; 54 signer-list shapes"
